@@ -7,6 +7,7 @@ package main
 
 import (
 	"bytes"
+	"encoding/binary"
 	"encoding/hex"
 	"encoding/json"
 	"errors"
@@ -406,6 +407,19 @@ func runAdapters(o *Out, r *rand.Rand, scale int, vec *vectors) {
 	}
 	for i := 0; i < 200*scale; i++ {
 		b.doGet(o, b.genKey(r))
+	}
+	// look-ups leave nothing behind: after them every vector can be put again and read back (a look-up path that keeps a
+	// lock or a handle would wedge the next writer - and every reader queued behind it)
+	for round := 0; round < 2; round++ {
+		for _, v := range vec.beacon {
+			b.doPut(o, v.key, v.val, "vec")
+			b.doGet(o, v.key)
+			if len(v.key) == 9 && (v.key[0] == 0x12 || v.key[0] == 0x13) {
+				slot := binary.LittleEndian.Uint64(v.key[1:])
+				b.doGet(o, cat([]byte{v.key[0]}, u64le(slot+1)))
+				b.doGet(o, cat([]byte{v.key[0]}, u64le(slot-1)))
+			}
+		}
 	}
 	// histories of summaries puts and gets on fresh stores: short keys, long keys, short stored values
 	for hcase := 0; hcase < 25*scale; hcase++ {
